@@ -49,6 +49,10 @@ type c08Result struct {
 	Root    string      `json:"root"`
 	Answers []c08Answer `json:"answers"`
 	NoUser  bool        `json:"no_user,omitempty"` // user.New refused the user (no rules at all)
+	// Answers2: the same requests by a new session after every symbolic link
+	// of the tree was re-pointed (same server process)
+	Answers2  []c08Answer `json:"answers2,omitempty"`
+	Repointed int         `json:"repointed,omitempty"`
 }
 
 func init() {
@@ -318,7 +322,14 @@ func c08(r *vlib.Run) int {
 				r.Violation("user-with-rules-refused", map[string]interface{}{"rules": rules, "user": c.UserName})
 			}
 		}
-		for _, a := range res.Answers {
+		if res.Repointed > 0 {
+			r.Count("cases_with_links_repointed_between_sessions", 1)
+		}
+		for ai, a := range append(append([]c08Answer(nil), res.Answers...), res.Answers2...) {
+			epoch2 := ai >= len(res.Answers)
+			if epoch2 {
+				r.Count("requests_after_links_were_repointed", 1)
+			}
 			want := !a.ResolveErr && a.Regular && rulesVerdict(sub, a.Resolved)
 			key := ""
 			if !a.ResolveErr && a.Regular {
@@ -342,7 +353,11 @@ func c08(r *vlib.Run) int {
 				r.Violation("verdict-differs-when-files-are-checked-concurrently", map[string]interface{}{"request": a.Request, "resolved": a.Resolved,
 					"rules": sub, "user": c.UserName, "got_concurrent": a.GotConc, "got_alone": a.Got, "want": want})
 			}
-			if a.Got != want {
+			if a.Got != want && epoch2 {
+				r.Violation("verdict-mismatch-after-links-were-repointed", map[string]interface{}{"request": a.Request, "resolved_now": a.Resolved, "regular": a.Regular,
+					"resolve_err": a.ResolveErr, "rules": sub, "user": c.UserName, "got": a.Got, "want": want, "tree_before": c.Nodes,
+					"repointing": "every symlink got the target of the next symlink node of the tree"})
+			} else if a.Got != want {
 				r.Violation("verdict-mismatch", map[string]interface{}{"request": a.Request, "resolved": a.Resolved, "regular": a.Regular,
 					"resolve_err": a.ResolveErr, "rules": sub, "user": c.UserName, "got": a.Got, "want": want, "tree": c.Nodes})
 			}
